@@ -303,7 +303,7 @@ def run(ctx):
         _mutants(ctx, G, ast, rng, names_set)
         ctx.count("enumerated.shipped_definitions")
     ctx.exhaustive["shipped_definitions"] = True
-    n = 700 if ctx.quick else 30000
+    n = 700 if ctx.quick else 250000
     for i in range(n):
         ast = gen_def(rng, names, rng.choice([1, 2, 3, 5]), rng.choice([2, 3, 6]))
         text = render(ast, rng, fancy=True)
